@@ -2,7 +2,7 @@
 
 use super::common::*;
 use crate::bridge::{Bound, Mask};
-use crate::formulas::{templates, Alphabet, Gen, F};
+use crate::formulas::{duplicate_templates, templates, Alphabet, Gen, F};
 use crate::oracle::Labels;
 use crate::report::{guarded, Report, Violation};
 use crate::sweep::{Got, NetCtx};
@@ -115,6 +115,7 @@ pub fn run(tier: &str) -> Result<Report, String> {
         let mut g = Gen::new(Alphabet::plain(env.ctxs[0].nprops(), 3));
         let mut fs = g.closed_up_to(m);
         fs.extend(templates(&env.ctxs[0].user, false, pool));
+        fs.extend(duplicate_templates(env.ctxs[0].nprops(), if tier == "quick" { 4 } else { 5 }, true, false));
         let bad: Vec<Violation> = fs
             .par_iter()
             .filter_map(|f| {
